@@ -44,3 +44,51 @@ def state_handler(prop, tier, seed, timeout_ms, only=None, **_):
     u.monitor_violations = [{"message": v["what"], "property": prop, "detail": v} for v in res["violations"]]
     u.status = "failed" if res["violations"] else "held"
     return [u]
+
+
+def cells(prop, tier, seed, timeout_ms, only=None, **_):
+    if only and "bounded" not in only:
+        return []
+    level = 2 if tier == "quick" else 3
+    t0 = time.time()
+    u = UnitResult("bounded:cells-api", kind="bounded")
+    u.props = [prop]
+    u.model_name = "native"
+    res, err = _run("bounded.cells_api", [level])
+    u.seconds = time.time() - t0
+    if res is None:
+        u.status, u.detail = "crash", "bounded harness failed: %s" % err
+        return [u]
+    u.evaluations = res["evaluations"]
+    u.distinct = res["grids"]
+    u.rule = ("EXHAUSTIVE over the stated finite space: every grid (dimension 1..3, the box lengths and cells per side listed in "
+              "bounded/cells_api.py, neighbour layers 0..2, periodic and non-periodic); distinct = grids")
+    u.samples = res["samples"]
+    u.detail = "BOUNDED (exhaustive within the bound): %d grids, %d clause evaluations" % (res["grids"], res["evaluations"])
+    u.monitor_violations = [{"message": v["what"], "property": prop, "detail": v} for v in res["violations"]]
+    u.status = "failed" if res["violations"] else "held"
+    return [u]
+
+
+def domination(prop, tier, seed, timeout_ms, only=None, **_):
+    if only and "bounded" not in only:
+        return []
+    n = 24 if tier == "quick" else 48
+    t0 = time.time()
+    u = UnitResult("bounded:domination-grid", kind="bounded")
+    u.props = [prop]
+    u.model_name = "native"
+    res, err = _run("bounded.domination", [n, seed])
+    u.seconds = time.time() - t0
+    if res is None:
+        u.status, u.detail = "crash", "bounded harness failed: %s" % err
+        return [u]
+    u.evaluations = res["evaluations"]
+    u.distinct = res["evaluations"]
+    u.rule = ("grid %d^3 in the minimum-image cube x 2 charge signs x 3 directions x 3 box lengths + seeded local refinement "
+              "around ratios > 0.97; every point distinct" % n)
+    u.samples = res["samples"] + [{"measured_max_ratio_true_over_bound": res["max_ratio"]}]
+    u.detail = "BOUNDED: %d points, measured max(true/bound) = %.6f" % (res["evaluations"], res["max_ratio"])
+    u.monitor_violations = [{"message": v["what"], "property": prop, "detail": v} for v in res["violations"]]
+    u.status = "failed" if res["violations"] else "held"
+    return [u]
